@@ -524,8 +524,11 @@ CFGS = ['default']
 def c01(ctx, rep):
     for cfg in CFGS:
         tag = ''
-        R = rep.rule('C01.R7', 'units: residual definitions are dimensionally the documented ones')
+        R = rep.rule('C01.R7', 'residual definitions: units and signed linear forms (rx = -Px - A'z - tau q, rz = Ax + s - tau b, ...); documented normalised residual figures')
         R.guard(lambda: residual_definitions(R, ctx, cfg, tag))
+        from . import forms_rules
+        R.guard(lambda: forms_rules.residual_forms(R, ctx, cfg, tag))
+        R.guard(lambda: forms_rules.report_forms(R, ctx, cfg, tag, which=('res',)))
         R5 = rep.rule('C01.R5', 'units: reported residuals / costs / gaps are un-equilibrated and de-homogenised; cached norms unit-free')
         R5.guard(lambda: info_update_only(R5, ctx, cfg, tag))
         R5.guard(lambda: norm_caches(R5, ctx, cfg, tag))
@@ -570,17 +573,22 @@ def c02(ctx, rep):
             unscale_units(R, ctx, cfg, tag)
             infeasibility_tests(R, ctx, cfg, tag, finals)
         R.guard(body)
-        R5 = rep.rule('C02.R5', 'units: partial residual definitions')
+        R5 = rep.rule('C02.R5', 'partial residual definitions (rx_inf = -A'z, rz_inf = Ax + s, Px) and infeasibility residual figures: units and signed forms')
         R5.guard(lambda: residual_definitions(R5, ctx, cfg, tag))
+        from . import forms_rules
+        R5.guard(lambda: forms_rules.residual_forms(R5, ctx, cfg, tag))
+        R5.guard(lambda: forms_rules.report_forms(R5, ctx, cfg, tag, which=('inf',)))
     premises(ctx, rep, 'C02.R6')
 
 
 def c03(ctx, rep):
     for cfg in CFGS:
         tag = ''
-        R = rep.rule('C03.R2', 'units: objective values, residual figures and gaps reported in user units; cached norms unit-free')
+        R = rep.rule('C03.R2', 'objective values, residual figures and gaps: user units (units engine) and the documented formulas (signed forms); cached norms unit-free')
         R.guard(lambda: info_update_only(R, ctx, cfg, tag))
         R.guard(lambda: norm_caches(R, ctx, cfg, tag))
+        from . import forms_rules
+        R.guard(lambda: forms_rules.report_forms(R, ctx, cfg, tag, which=('cost', 'res')))
     premises(ctx, rep, 'C03.R7')
 
 
